@@ -316,8 +316,10 @@ def render(R):
     o.append("\n/-- `MutatorKind::all_mutators(false)` and the kinds added when `unsafe_mutations` -/")
     o.append("def allMutatorsSafe : List String := %s" % lean_list(['"%s"' % n for n in R["all_safe"]]))
     o.append("def allMutatorsUnsafeExtra : List String := %s" % lean_list(['"%s"' % n for n in R["all_unsafe_extra"]]))
-    o.append("\n/-- in-place mutation sites of `stack_ops.rs` (line, receiver, how the receiver was obtained): all of them\nwork on a cell taken from the simulated stack, i.e. on an arena cell; `Stack::push` registers every cell it\ncreates and `reset`/`Drop` release them (checked syntactically by the translator) -/")
-    o.append("def mutationSites : List (Nat × String × String) := %s" % lean_list(['(%d, "%s", "%s")' % x for x in R["mut_sites"]]))
+    o.append("\n/-- in-place mutation sites of `stack_ops.rs` (receiver, how the receiver was obtained): all of them\nwork on a cell taken from the simulated stack, i.e. on an arena cell; `Stack::push` registers every cell it\ncreates and `reset`/`Drop` release them (checked syntactically by the translator) -/")
+    # (receiver, origin) per site, in source order; line numbers are left out so that an edit elsewhere in the file does
+    # not change this module (and force a rebuild of everything that imports it)
+    o.append("def mutationSites : List (String × String) := %s" % lean_list(['("%s", "%s")' % (x[1], x[2]) for x in R["mut_sites"]]))
     o.append("\n/-- the translator's syntactic C14 checks all passed (push registers unconditionally, reset/Drop release,\nno `borrow_mut()` elsewhere, every site bound by peek/pop) -/")
     o.append("def heapSitesChecked : Bool := %s" % ("true" if not R["heap_refused"] else "false"))
     o.append("\n/-- `data/stdlib_complete.txt`: number of lines; every line non-empty printable ASCII without quote/backslash -/")
